@@ -2,6 +2,7 @@ package props
 
 import (
 	"fmt"
+	"net/http"
 	"strings"
 	"sync"
 	"sync/atomic"
@@ -118,7 +119,65 @@ func c01(ctx *core.Ctx) {
 				checkC01(ctx, ti, t, router, rt.Dispatch+"-concurrent", &reqs[i], out)
 			})
 		}
+		if ti%50 == 3 {
+			builderReuse(ctx, ti, router)
+		}
 	}
+}
+
+// builderReuse: one RouteBuilder used for three routes. What it accumulates (conditions) belongs to the later
+// routes as well; what an earlier route was built with stays that route's own.
+func builderReuse(ctx *core.Ctx, ti int, router string) {
+	c := restful.NewContainer()
+	if router == "jsr311" {
+		c.Router(restful.RouterJSR311{})
+	}
+	ran := ""
+	fn := func(name string) restful.RouteFunction {
+		return func(req *restful.Request, resp *restful.Response) { ran += name; resp.WriteHeader(200) }
+	}
+	cond := func(h string) restful.RouteSelectionConditionFunction {
+		return func(r *http.Request) bool { return r.Header.Get(h) == "1" }
+	}
+	ws := new(restful.WebService).Path("/reuse")
+	b := ws.GET("/a").If(cond("X-H1")).To(fn("a"))
+	ws.Route(b)
+	ws.Route(b.Path("/b").If(cond("X-H2")).To(fn("b")))
+	ws.Route(b.Method("POST").Path("/c").To(fn("c")))
+	c.Add(ws)
+	for _, probe := range []struct {
+		method, path string
+		needs        []string
+	}{{"GET", "/reuse/a", []string{"X-H1"}}, {"GET", "/reuse/b", []string{"X-H1", "X-H2"}}, {"POST", "/reuse/c", []string{"X-H1", "X-H2"}}} {
+		for mask := 0; mask < 4; mask++ {
+			req := rt.Req{Method: probe.method, Path: probe.path, Hdr: map[string]string{}}
+			if mask&1 != 0 {
+				req.Hdr["X-H1"] = "1"
+			}
+			if mask&2 != 0 {
+				req.Hdr["X-H2"] = "1"
+			}
+			want := true
+			for _, h := range probe.needs {
+				if req.Hdr[h] != "1" {
+					want = false
+				}
+			}
+			ran = ""
+			out := rt.Run(c, rt.Dispatch, &req)
+			ctx.Eval(1)
+			ctx.Count("builder_reuse_probes", 1)
+			wantRan := ""
+			if want {
+				wantRan = probe.path[len(probe.path)-1:]
+			}
+			if ran != wantRan {
+				ctx.Violation(ti, "c01:builder-reuse:"+router, fmt.Sprintf("%s %s with headers %v: route function(s) %q ran, expected %q (conditions declared on the shared builder: a:H1, b:H1+H2, c:H1+H2); status %d", probe.method, probe.path, req.Hdr, ran, wantRan, out.Status),
+					map[string]interface{}{"router": router, "request": req, "ran": ran, "expected": wantRan})
+			}
+		}
+	}
+	ctx.Sig("builder-reuse|" + router)
 }
 
 func checkC01(ctx *core.Ctx, ti int, t *rt.Table, router, entry string, req *rt.Req, out *rt.Outcome) {
@@ -231,8 +290,28 @@ func c02(ctx *core.Ctx) {
 		switch ti % 40 {
 		case 9:
 			o.MaxRoutes, o.MaxSvcs = 60, 4 // "template/route counts may be arbitrary"
+		case 10:
+			o.Nested, o.MinSvcs, o.VarRoots = true, 3, false
+		case 11:
+			oddTemplates(ctx, ti, router)
 		}
 		t := rt.GenTable(r, o)
+		emptied := ""
+		switch ti % 40 {
+		case 10:
+			// the WebService with the longest (most specific) root has no routes at the moment: it still owns its URLs
+			best := 0
+			for i := range t.Svcs {
+				if len(t.Svcs[i].Root) > len(t.Svcs[best].Root) {
+					best = i
+				}
+			}
+			if len(t.Svcs[best].Root) > 0 {
+				t.Svcs[best].Routes = nil
+				emptied = t.Svcs[best].Root.String()
+				ctx.Count("tables_with_emptied_most_specific_service", 1)
+			}
+		}
 		switch ti % 40 {
 		case 7:
 			t.Svcs = nil // a container without any WebService
@@ -256,6 +335,14 @@ func c02(ctx *core.Ctx) {
 				// adversarial pool gets a guaranteed share
 				req.Path = rr.Pick([]string{"", "//", "/a//b", "a/b", "/a/b//", "/{x}", "/:", "/a:cancel", "/%2F", "/a/\x00", "/ü", "/a/*}", "/a\n/b", "/\xff\xfe"})
 				req.Class = "adv"
+			}
+			if emptied != "" && qi%2 == 0 {
+				req.Path = emptied + "/" + rr.Pick(rt.Literals)
+				if qi%4 == 0 {
+					req.Path += "/" + rr.Pick(rt.VarVals)
+				}
+				req.RawPath = ""
+				req.Class = "under-emptied-service"
 			}
 			reqs = append(reqs, req)
 			restful.EnableTracing(false)
@@ -291,6 +378,37 @@ func c02(ctx *core.Ctx) {
 				ctx.Count("concurrent_requests", 1)
 				judgeC02(ctx, ti, t, router, "-concurrent", &reqs[i], out)
 			})
+		}
+	}
+}
+
+// oddTemplates: route paths whose colon tails are not custom verbs (":c++", ":a(b", ":[", ":v2"). What such a template
+// matches is not specified - that dispatching never panics is (C02's totality clause holds for every route table).
+func oddTemplates(ctx *core.Ctx, ti int, router string) {
+	c := restful.NewContainer()
+	if router == "jsr311" {
+		c.Router(restful.RouterJSR311{})
+	}
+	n := 0
+	ws := new(restful.WebService).Path("/odd")
+	for _, p := range []string{"/{id}:c++", "/x:a(b", "/{v}:[", "/{w:[a-z]+}:v2", "/lit:1+1", "/{z}:*", "/a/{id}:c++/b", "/{q}:\\"} {
+		ws.Route(ws.GET(p).To(func(req *restful.Request, resp *restful.Response) { n++; resp.WriteHeader(200) }))
+	}
+	c.Add(ws)
+	for _, path := range []string{"/odd/abc", "/odd/abc:c++", "/odd/x:a(b", "/odd/q:[", "/odd/ab:v2", "/odd/lit:1+1", "/odd/z:*", "/odd/a/7:c++/b", "/odd/q:\\", "/odd/:c++", "/odd/c", "/odd/abc:c+"} {
+		for _, tr := range []bool{false, true} {
+			restful.EnableTracing(tr)
+			n = 0
+			req := rt.Req{Method: "GET", Path: path}
+			out := rt.Run(c, rt.Dispatch, &req)
+			restful.EnableTracing(false)
+			ctx.Eval(1)
+			ctx.Count("odd_template_probes", 1)
+			if out.Panicked {
+				ctx.Violation(ti, "c02:panic-odd-template:"+router, fmt.Sprintf("Dispatch panicked for GET %q on a table with odd colon tails: %s", path, out.Panic), map[string]interface{}{"router": router, "path": path, "trace": tr})
+			} else if n > 1 {
+				ctx.Violation(ti, "c02:multi-invoke-odd-template:"+router, fmt.Sprintf("%d route functions ran for GET %q", n, path), map[string]interface{}{"router": router, "path": path})
+			}
 		}
 	}
 }
